@@ -498,6 +498,11 @@ class CallMixin:
             from .reference import asdl as _asdl
 
             return Cst(all(_asdl.field_info(k, n.value) is not None for k in v.kinds))
+        if isinstance(v, TNode) and isinstance(n, Cst) and not v.kind.startswith("$"):
+            # a node the converter built: the fields it was given exist (optional ones default to None)
+            from .reference import asdl as _asdl
+
+            return Cst(n.value in v.fields or _asdl.field_info(v.kind, n.value) is not None)
         if isinstance(v, Obj) and isinstance(n, Cst):
             if n.value in v.attrs:
                 return Cst(True)
